@@ -6,6 +6,7 @@ consumed batch (independent record of what was simulated).  Compared with Model/
 `checkExtract` is run by the Lean driver on the real output (rows mapped to draw ids by byte
 equality across ALL returned output columns = row consistency)."""
 import math
+from fractions import Fraction
 from fractions import Fraction as F
 
 import numpy as np
@@ -238,6 +239,7 @@ BOUNDARY = [
 
 def process(ctx, cases):
     reqs, meta = [], []
+    qreqs, qmeta = [], []
     for case in cases:
         if ctx.enough():
             break
@@ -268,8 +270,23 @@ def process(ctx, cases):
         reqs.append(dict(op='C01.check', thr=thr, n=case['n'], consumed=info['cons'], out=info['out'],
                          threshold=key_json(last_col(info['res'].threshold))))
         meta.append((case, info))
+        if case['form'] == 'quantile':
+            fr = Fraction(str(case['value']))                  # the decimal the user wrote
+            qreqs.append(dict(op='C01.qbudget', n=case['n'], p=fr.numerator, q=fr.denominator, b=case['b']))
+            qmeta.append((case, info))
     if not ctx.driver_ok:
         return
+    # the quantile objective inside the model (theorems quantileBudget_spec / quantileBatches_spec): batches consumed by the real run
+    # vs ceil(ceil(n/quantile)/batch_size) over exact rationals; where the FLOAT quotient n/quantile lands just above an integer
+    # the exact value is (e.g. 3/0.1 = 30.000000000000004) the code's own float ceiling is the documented behaviour - counted, not compared
+    for (case, info), a in zip(qmeta, ctx.lean.drive(qreqs)):
+        mb = a.get('ok', {})
+        if mb.get('budget') != math.ceil(case['n'] / case['value']):
+            ctx.count('quantile.float_boundary', True)
+            continue
+        ctx.count('quantile.float_boundary', False)
+        if mb.get('batches') != info['res'].n_batches:
+            ctx.corr_break('quantile.batches', case, mb, info['res'].n_batches)
     ans = ctx.lean.drive(reqs)
     for k, (case, info) in enumerate(meta):
         a, chk = ans[2 * k], ans[2 * k + 1]
